@@ -43,17 +43,56 @@ def run(ctx):
     ctx.units["conjure_codegen bodies"] = len(c.bodies)
     I = minterp.Interp(F, c)
     # ---------------- anchors by role
-    dec = [b for b in c.bodies if b.kind == "assoc_fn" and any(t["call"]["name"] == "safety" and "ArgumentDefinition" in t["call"]["def"] for _, t in b.calls())
-           and tystr(b.local_ty(0)) == "bool"]
+    # the decision function: a bool function of Context over an &ArgumentDefinition; its three inputs — the declared safety
+    # (ArgumentDefinition::safety), the legacy marker test (a bool function of the argument) and the type-derived safety (an
+    # Option<LogSafety> function of a Type) — may be consulted directly, in closures of a combinator chain, or through private
+    # helpers / a private trait: they are looked for in everything the function reaches inside conjure_codegen::context
+    def reach(b0, depth=3):
+        seen_, out_, work_ = set(), [], [(b0, 0)]
+        while work_:
+            x, dd = work_.pop()
+            if x.id in seen_:
+                continue
+            seen_.add(x.id)
+            fam_ = [x] + c.closures_of(x)
+            for y in fam_:
+                for bb_, t_ in y.calls():
+                    out_.append((y, bb_, t_))
+                    f_ = t_["call"]
+                    if f_.get("trait") and not (f_.get("resolved") or {}).get("local"):
+                        late = c.resolve_trait_call(f_)
+                        if late:
+                            f_ = dict(f_, resolved=late)
+                    cid = (f_.get("resolved") or {}).get("id") if (f_.get("resolved") or {}).get("local") else (f_.get("id") if f_.get("local") else None)
+                    cb_ = c.body(cid) if cid else None
+                    if cb_ is not None and dd < depth and cb_.id.startswith("conjure_codegen::context::") and cb_.d.get("vis") != "pub" and cb_.id != b0.id:
+                        work_.append((cb_, dd + 1))
+                    # generic helpers instantiated at ArgumentDefinition reach its trait impls
+                    if cb_ is None and f_.get("trait", "").startswith("conjure_codegen::") and dd < depth:
+                        for i_ in c.impls:
+                            if i_.get("trait") == f_["trait"] and "ArgumentDefinition" in tystr(i_.get("self_ty") or {}) and f_["name"] in i_.get("items", {}):
+                                ib_ = c.body(i_["items"][f_["name"]])
+                                if ib_ is not None:
+                                    work_.append((ib_, dd + 1))
+        return out_
+    dec = []
+    for b in c.bodies:
+        if b.kind == "assoc_fn" and tystr(b.local_ty(0)) == "bool" and b.id.startswith("conjure_codegen::context::") and any("ArgumentDefinition" in tystr(b.local_ty(k)) for k in range(1, b.argc + 1)):
+            if any(t["call"]["name"] == "safety" and "ArgumentDefinition" in t["call"]["def"] for _, _, t in reach(b)):
+                dec.append(b)
+    # (a helper of the decision function also reaches `safety`: keep the outermost one)
+    if len(dec) > 1:
+        inner_ids = {t["call"].get("id") for b in dec for _, _, t in reach(b) if t["call"].get("local")}
+        dec = [b for b in dec if b.id not in inner_ids] or dec
     if len(dec) != 1:
         ctx.violation("R8.1", "conjure_codegen", "anchor|argument-safety-decision", f"expected one bool function reading ArgumentDefinition::safety, found {len(dec)}")
         return
     d = dec[0]
     cfg = CFG(d)
-    sbb = [(bb, t) for bb, t in d.calls() if t["call"]["name"] == "safety"][0]
-    local_calls = [(bb, t) for bb, t in d.calls() if t["call"].get("local") and t["call"]["def"].startswith("conjure_codegen::context::")]
-    legacy = [(bb, t) for bb, t in local_calls if tystr(d.local_ty(place_local(t["dest"]))) == "bool"]
-    typed = [(bb, t) for bb, t in local_calls if tystr(d.local_ty(place_local(t["dest"]))).startswith(OPT)]
+    local_calls = [(y, bb, t) for y, bb, t in reach(d) if t["call"].get("local") and t["call"]["def"].startswith("conjure_codegen::context::")]
+    leg_ids = {t["call"]["id"]: (bb, t) for y, bb, t in local_calls if tystr(y.local_ty(place_local(t["dest"]))) == "bool" and any("ArgumentDefinition" in tystr(a_) for a_ in (t.get("atys") or []))}
+    typ_ids = {t["call"]["id"]: (bb, t) for y, bb, t in local_calls if tystr(y.local_ty(place_local(t["dest"]))).startswith(OPT + "<" + LS) and any("type_::Type" in tystr(a_) for a_ in (t.get("atys") or []))}
+    legacy, typed = list(leg_ids.values()), list(typ_ids.values())
     ctx.check(len(legacy) == 1 and len(typed) == 1, "R8.1", d.loc(), "decision|shape", f"expected one legacy check and one type-derived check, found {len(legacy)} / {len(typed)}", nontrivial=False)
     if len(legacy) == 1 and len(typed) == 1:
         # decision table of the argument-safety decision by constant propagation: one run per (declared safety, legacy marker,
@@ -193,7 +232,7 @@ def check_tables(ctx, F, c, I, tb):
             r = I.run(tb, [("sym", "self"), minterp.adt(TY, k, [("sym", "p")] * len(v["fields"]))])
             rows[v["name"]] = minterp.show(I, r)
         except minterp.Unsupported as e:
-            ctx.violation("R8.2", where, f"type-table|{v['name']}|unsupported", f"type-safety function left the analysable fragment for {v['name']}: {e}")
+            ctx.note(f"R8.2 type table: the type-safety function left the interpretable fragment for {v['name']} ({e}) — e.g. an explicit work list instead of structural recursion; the per-constructor table is not decided at generator level, the generated instance is decided by R8.4")
             return
     me = tb.name
     comb = None
@@ -203,9 +242,9 @@ def check_tables(ctx, F, c, I, tb):
         ctx.check(rows.get(k) == exp, "R8.2", where, f"type-table|{k}", f"type safety of {k} is `{rows.get(k)}`, specification: `{exp}` (as safe as its contents / unknown for external)", instance=f"{k} -> {exp}")
     m = rows.get("Map", "")
     import re
-    mm = re.fullmatch(rf"(\w+)\(self, {me}\(self, p\.key_type\), {me}\(self, p\.value_type\)\)", m) or re.fullmatch(rf"(\w+)\(self, {me}\(self, p\.value_type\), {me}\(self, p\.key_type\)\)", m)
+    mm = re.fullmatch(rf"(\w+)\((?:self, )?{me}\(self, p\.key_type\), {me}\(self, p\.value_type\)\)", m) or re.fullmatch(rf"(\w+)\((?:self, )?{me}\(self, p\.value_type\), {me}\(self, p\.key_type\)\)", m)
     ctx.check(bool(mm), "R8.2", where, "type-table|Map", f"type safety of a map is `{m}`, specification: combine(key, value)", instance=f"Map -> {m}")
-    pm = re.fullmatch(r"(\w+)\(self, p\)", rows.get("Primitive", ""))
+    pm = re.fullmatch(r"(\w+)\((?:self, )?p\)", rows.get("Primitive", ""))
     ctx.check(bool(pm), "R8.2", where, "type-table|Primitive", f"type safety of a primitive is `{rows.get('Primitive')}`", instance=f"Primitive -> {rows.get('Primitive')}")
     ref = rows.get("Reference", "")
     ctx.check("types" in ref and "index" in ref and "External" != ref and "None" != ref, "R8.2", where, "type-table|Reference", f"type safety of a reference is `{ref}`; it must be the named type's computed safety", instance=f"Reference -> {ref}")
@@ -218,7 +257,7 @@ def check_tables(ctx, F, c, I, tb):
             for an, av in vals:
                 for bn, bv in vals:
                     try:
-                        r = opt(I, I.run(cb[0], [("sym", "self"), av, bv]))
+                        r = opt(I, I.run(cb[0], ([("sym", "self")] if cb[0].argc == 3 else []) + [av, bv]))
                     except minterp.Unsupported as e:
                         ctx.violation("R8.2", cb[0].loc(), f"combine|{an}|{bn}|unsupported", f"combine function left the analysable fragment: {e}")
                         continue
@@ -233,7 +272,7 @@ def check_tables(ctx, F, c, I, tb):
                 if v["name"] == "Unknown":
                     continue
                 try:
-                    r = opt(I, I.run(pb[0], [("sym", "self"), minterp.adt(PT, k, [("sym", "x")] * len(v["fields"]))]))
+                    r = opt(I, I.run(pb[0], ([("sym", "self")] if pb[0].argc == 2 else []) + [minterp.adt(PT, k, [("sym", "x")] * len(v["fields"]))]))
                 except minterp.Unsupported as e:
                     ctx.violation("R8.2", pb[0].loc(), f"primitive|{v['name']}|unsupported", str(e))
                     continue
@@ -283,6 +322,21 @@ def check_tables(ctx, F, c, I, tb):
             return t["call"]["name"], iv
         if folds:
             return None
+        # reduce(..): a fold without an initial value — an empty member list yields None (unknown), never Safe
+        reds = [t for t in arms.get(kind, []) if t["call"]["name"] == "reduce" and "Iterator" in t["call"]["def"]]
+        if len(reds) == 1:
+            return "reduce", "None"
+        # the fold may live in a private helper shared by the object and union arms: its initial value is then the same for both
+        helpers = [t for t in arms.get(kind, []) if t["call"].get("local") and c.body(t["call"].get("id")) is not None and c.body(t["call"]["id"]).d.get("vis") != "pub"
+                   and c.body(t["call"]["id"]).id != nb.id]
+        for t in helpers:
+            hb_ = c.body(t["call"]["id"])
+            hf = [t2 for x_ in [hb_] + c.closures_of(hb_) for _, t2 in x_.calls() if t2["call"]["name"] in ("try_fold", "fold") and "Iterator" in t2["call"]["def"]]
+            if len(hf) == 1:
+                r = dt.resolve_copy(hb_, hf[0]["args"][1])
+                if r[0] == "def" and r[1][1] != "T" and r[1][2]["r"].get("agg") == "adt":
+                    rv = r[1][2]["r"]
+                    return hf[0]["call"]["name"], (rv["variant"] if rv["adt"] == LS else ("None" if rv["variant"] == "None" else "Some(?)"))
         # explicit loop: a combine call inside a loop of this arm whose accumulator operand is a local initialised before the loop
         loops = [(bb_, t) for bb_, t in nb.calls() if t in arms.get(kind, []) and t["call"].get("local") and tystr(nb.local_ty(place_local(t["dest"]))).startswith(OPT + "<" + LS) and cfg.in_loop(bb_) and len(t["args"]) == 3]
         for bb_, t in loops:
